@@ -333,7 +333,7 @@ FIXED = [
 ]
 
 # the known finding: 1100 inner iterations with run-time bounds and an @exclusive variable
-KF_EXCL = "kx1 args:1,1100 garr:1100,1100 ob:a0:a1:i,t1:-:1:0:- sec:-:N X0=(g0[i0]+1) sec:-:N O1.0=x0"
+KF_EXCL = "kx1 args:1,1030 garr:1030,1030 ob:a0:a1:i,t1:-:1:0:- sec:-:N X0=(g0[i0]+1) sec:-:N O1.0=x0"
 
 
 def view(obs):
@@ -485,7 +485,7 @@ def run(run, tier, seed, replay_case=None):
     run.coverage["trusted_base"] = TRUSTED
     model = C.build_model(PROP)
 
-    n = int(os.environ.get("VERIF_N", "0")) or (22 if tier == "quick" else 320)
+    n = int(os.environ.get("VERIF_N", "0")) or (12 if tier == "quick" else 150)
     cases = list(C.load_corpus(PROP)) + list(FIXED) + [KF_EXCL] + gen_cases(seed, n, "q" if tier == "quick" else "t")
     if replay_case is not None:
         cases = [replay_case]
